@@ -624,6 +624,9 @@ func runHistory(t *testing.T, h *History) (lines []string) {
 		}
 	}()
 	rs.emit("H\t%s\t%s\t%s\t%s\t%d\t%s", hx(h.ID), h.Prop, hx(h.Class), h.Backend, h.SWRTimeoutNs, h.Logger)
+	if h.Concurrent {
+		rs.emit("I\tCONC")
+	}
 	// inputs
 	for n, op := range h.Ops {
 		switch op.Op {
